@@ -74,6 +74,13 @@ pub const CLASSES: &[&str] = &[
     "all_04_1k",
     "truncated_valid",
     "honest_4mib",
+    // READY announcing every socket-type name of the RFCs, and some that are none
+    "ready_type_STREAM",
+    "ready_type_PAIR",
+    "ready_type_XSUB",
+    "ready_type_stream_lower",
+    "ready_type_empty",
+    "ready_type_long",
     // complete multipart messages around "round" frame counts (a cap on parts, a counter width)
     "parts_1023",
     "parts_1024",
@@ -226,6 +233,18 @@ pub fn hostile(class: &str, peer_ty: &str, seed: u64) -> Vec<u8> {
         "one_frame_msgs" => rc::message(&[vec![b'x']]).repeat(3),
         "unknown_identity_msgs" => rc::message(&[b"nobody".to_vec(), vec![], b"x".to_vec()]).repeat(3),
         "delimiter_only_msgs" => rc::message(&[vec![]]).repeat(3),
+        c if c.starts_with("ready_type_") => {
+            let long = vec![b'S'; 300];
+            let name: &[u8] = match &c[11..] {
+                "stream_lower" => b"stream",
+                "empty" => b"",
+                "long" => &long,
+                n => n.as_bytes(),
+            };
+            let mut v = rc::command(b"READY", &rc::props(&[(b"Socket-Type", name)]));
+            v.extend(rc::message(&[vec![1, 2, 3]]));
+            v
+        }
         c if c.starts_with("parts_") => {
             let n: usize = c[6..].parse().unwrap_or(2);
             let mut v = [0x01u8, 0x00].repeat(n - 1);
